@@ -830,5 +830,48 @@ Proof.
         apply QX; auto. intros n0 ->. unfold op_rv in CL. simpl in CL. discriminate.
       * eapply DGU; eauto. eapply exec_op_nonlist; eauto. congruence.
 Qed.
+
+Theorem step2_conf : forall st o, Conforms st -> scope_ok P (o2_scope o) -> Conforms (fst (step2 q false ev st o)).
+Proof.
+  intros st o C S. unfold step2.
+  destruct (get_at st (o2_pos o)) as [[|tid tk tpa tpth tfl its]|] eqn:G; auto.
+  destruct (negb (kind_ok tk (o2_op o))) eqn:K; auto.
+  destruct (op_mapM (resolve_t st) (o2_op o)) as [ro|] eqn:R; auto.
+  destruct (op_mapM_shape _ _ _ _ _ tk R) as (_ & _ & Kq).
+  destruct (negb (guard ev (o2_scope o) st (o2_pos o) (Node tid tk tpa tpth tfl its) ro)); auto.
+  destruct (exec2 q false ev (o2_scope o) st (o2_pos o) tid tk tpth tfl its ro) as [st1 out] eqn:E. simpl.
+  apply conforms_gc. eapply exec2_conf; eauto.
+  - rewrite Kq. apply negb_false_iff in K. exact K.
+  - eapply resolve_op_tfree; eauto.
+Qed.
+
+Theorem run_ops2_conf : forall ops st, Conforms st -> Forall (fun o => scope_ok P (o2_scope o)) ops -> Conforms (run_ops2 q false ev st ops).
+Proof.
+  unfold run_ops2. induction ops as [|o r IH]; simpl; intros st C F; auto. inv F.
+  apply IH; auto. apply step2_conf; auto.
+Qed.
 End Exec.
+
+(* --- the initial forest ---------------------------------------------------------------------------------------------------- *)
+Lemma init_root_conf : forall st r, good_env ev -> Conforms st -> Conforms (fst (init_root false ev st r)).
+Proof.
+  intros st r GE C. unfold init_root. destruct r as [l|k rf fl v].
+  - destruct l as [lf|k fl pl its]; [simpl; apply conforms_add_slot; simpl; auto|].
+    destruct (lit_valid (LitNode k fl pl its) && lit_no_obj (LitNode k fl pl its)) eqn:V; [|simpl; apply conforms_add_slot; simpl; auto].
+    destruct (build false None [] (LitNode k fl pl its) (next_id st)) as [n nx] eqn:B. simpl.
+    apply conforms_add_root; [apply conforms_with_next; auto|].
+    replace n with (fst (build false None [] (LitNode k fl pl its) (next_id st))) by (rewrite B; auto).
+    apply cnode_build_free. apply lit_no_obj_free. apply andb_true_iff in V. tauto.
+  - destruct (troot false ev st k rf fl v) as [[n st1]|e] eqn:T; simpl.
+    + destruct (troot_conf _ _ _ _ _ _ _ GE T) as (Cn & R). apply conforms_add_root; auto. eapply conforms_same_roots; eauto.
+    + apply conforms_add_slot; simpl; auto.
+Qed.
+Lemma init_roots_conf : forall rs st, good_env ev -> Conforms st -> Conforms (fst (init_roots false ev st rs)).
+Proof.
+  induction rs as [|r rest IH]; simpl; intros st GE C; auto.
+  pose proof (init_root_conf st r GE C) as C1. destruct (init_root false ev st r) as [st1 e]. simpl in C1.
+  specialize (IH st1 GE C1). destruct (init_roots false ev st1 rest) as [st2 es]. simpl in *. exact IH.
+Qed.
+Lemma conforms_empty : Conforms empty_state.
+Proof. constructor. Qed.
 End Ops.
